@@ -114,7 +114,13 @@ class VG:
         if isinstance(e, (ast.Tuple, ast.List)):
             return ("tuple" if isinstance(e, ast.Tuple) else "list", tuple(self.ev(x) for x in e.elts))
         if isinstance(e, ast.Subscript):
-            return ("sub", self.ev(e.value), self.ev(e.slice))
+            b, i = self.ev(e.value), self.ev(e.slice)
+            if b[0] == "comp" and b[1] == "ListComp" and len(b[3]) == 1 and not b[3][0][1] and i[0] == "const" \
+                    and i[1].lstrip("-").isdigit() and not _contains_tag(b[2], "comp") \
+                    and not _contains(b[2], lambda t: t[0] == "bound" and t[1:] != (0, 0)):
+                # [f(x) for x in L][k]  ==  f(L[k])   (both raise IndexError when L is too short)
+                return _subst(b[2], ("bound", 0, 0), ("sub", b[3][0][0], i))
+            return ("sub", b, i)
         if isinstance(e, ast.Slice):
             return ("slice",) + tuple(self.ev(x) if x is not None else None for x in (e.lower, e.upper, e.step))
         if isinstance(e, ast.Starred):
@@ -278,6 +284,26 @@ class VG:
             self.run(s.body)
         elif isinstance(s, ast.While):
             self.run(s.body)
+
+
+def _contains(t, pred):
+    if isinstance(t, tuple):
+        if t and isinstance(t[0], str) and pred(t):
+            return True
+        return any(_contains(x, pred) for x in t)
+    return False
+
+
+def _contains_tag(t, tag):
+    return _contains(t, lambda x: x[0] == tag)
+
+
+def _subst(t, old, new):
+    if t == old:
+        return new
+    if isinstance(t, tuple):
+        return tuple(_subst(x, old, new) for x in t)
+    return t
 
 
 def mk_phi(cond, a, b):
